@@ -16,12 +16,13 @@ inductive MUnit
   | dpi | dpcm | dppx | percent | em | other
   deriving DecidableEq, Repr, Inhabited
 
-/-- `Unit::dimension` (`Dimension::None` for no unit and `%`) -/
-inductive Dim | none | length | angle | time | freq | res | em | other
+/-- `Unit::dimension` (since fix 662f413 `%` has a dimension of its own) -/
+inductive Dim | none | percent | length | angle | time | freq | res | em | other
   deriving DecidableEq, Repr
 
 def MUnit.dim : MUnit → Dim
-  | .none | .percent => .none
+  | .none => .none
+  | .percent => .percent
   | .px | .inch | .cm | .mm | .pt | .pc | .q => .length
   | .deg | .grad | .rad | .turn => .angle
   | .s | .ms => .time
@@ -30,9 +31,10 @@ def MUnit.dim : MUnit → Dim
   | .em => .em
   | .other => .other
 
-/-- `CssDimension::from(Dimension)`: every length kind is `Length` -/
+/-- `CssDimension::from(Dimension)`: every length kind is `Length`, `%` has none -/
 def Dim.css : Dim → Dim
   | .em => .length
+  | .percent => .none
   | d => d
 
 /-- number carrier: the operations the math functions perform -/
@@ -130,10 +132,7 @@ def compatible (a b : MUnit) : Bool :=
 /-- `impl PartialOrd for Numeric` -/
 def qcmp (q : MathQuirks) (a b : Q α) : Option Ordering :=
   if a.u = b.u then ncmp q a.v b.v
-  else if a.u = .none ∨ b.u = .none then
-    match ncmp q a.v b.v with
-    | some .eq => Option.none
-    | o => o
+  else if a.u = .none ∨ b.u = .none then ncmp q a.v b.v   -- (since fix eee6e7f: `Equal` is kept)
   else match asUnit b a.u with
     | some scaled =>
       let result := ncmp q a.v scaled
@@ -152,7 +151,7 @@ def cmp2 (q : MathQuirks) (a b : Q α) : Option Ordering :=
 
 /-- `fn may_cmp_css`: css dimensions empty or equal -/
 def mayCmpCss (a b : MUnit) : Bool :=
-  a.dim = .none || b.dim = .none || a.dim.css = b.dim.css
+  a.dim.css = .none || b.dim.css = .none || a.dim.css = b.dim.css
 
 /-- is the value a NaN (not comparable even with itself) -/
 def isNaN (x : α) : Bool := !feq x x
